@@ -226,13 +226,15 @@ func refJSONNumber(tok []byte) bool {
 	return i == len(tok)
 }
 
-// c18NoMoreXML: a decoder with nothing left to read (in the executor the
-// zero Decoder is modelled as an empty token source).
+// c18NoMoreXML: a decoder standing just behind the start tag of the only,
+// empty, element of its document (what the executor models for a zero Decoder).
 func c18NoMoreXML() *xml.Decoder {
 	if verifSymbolic() {
 		return &xml.Decoder{}
 	}
-	return xml.NewDecoder(strings.NewReader(""))
+	d := xml.NewDecoder(strings.NewReader("<x/>"))
+	_, _ = d.Token()
+	return d
 }
 
 // c18Form restricts a symbolic text value: 0 anything, 1 with the "0x" prefix,
